@@ -414,7 +414,20 @@ theorem slotTy_cons (t : FTy) (s : Seg) (r : Path) (d : FVal) :
            | some ft => slotTy ft r
            | none => none
          | none => none) := by
-  cases t <;> simp [slotTy, mapOf, structOf]
+  cases t with
+  | str => simp [slotTy, mapOf, structOf]
+  | int => simp [slotTy, mapOf, structOf]
+  | any => simp [slotTy, mapOf]
+  | map e => simp [slotTy, mapOf]
+  | struct n fs =>
+    simp only [slotTy, mapOf, structOf]
+    cases fieldTy fs s <;> rfl
+  | ptr t' =>
+    cases t' with
+    | struct n fs =>
+      simp only [slotTy, mapOf, structOf]
+      cases fieldTy fs s <;> rfl
+    | _ => simp [slotTy, mapOf, structOf]
 
 /-- what was assigned is what is read back -/
 theorem assign_getT_same : ∀ (p : Path) (t : FTy) (d d' : FVal) (a : Taken), assign t d p a = some d' →
@@ -514,15 +527,6 @@ theorem assign_getT_other : ∀ (p q : Path) (t : FTy) (d d' : FVal) (a : Taken)
             · rw [fieldUpd_get_other _ fs _ k' (Ne.symm hs) h1]
 
 /-! ### success does not depend on the destination value -/
-
-/-- whether `assign` succeeds is decided by the types alone -/
-def assignable? (a : Taken) : FTy → Path → Bool
-  | t, [] => (store t a).isSome
-  | t, _ :: r =>
-    match t with
-    | .any => assignable? a .any r
-    | .map e => assignable? a e r
-    | _ => false
 
 theorem assign_isSome : ∀ (p : Path) (t : FTy) (d : FVal) (a : Taken),
     (assign t d p a).isSome = (match slotTy t p with | some st => (store st a).isSome | none => false) := by
@@ -672,5 +676,301 @@ theorem takeFrom_no_panic : ∀ (p : Path) (a : Taken) (via : Bool),
 
 theorem take_no_panic (t : FTy) (v : FVal) (p : Path) : take Expected.C15.take t v p ≠ .error .panic :=
   takeFrom_no_panic p _ _
+
+/-! ### statically validated and run-time checked mappings can always be assigned -/
+
+theorem slotTy_any : ∀ (r : Path), slotTy .any r = some .any
+  | [] => rfl
+  | _ :: r => by simp [slotTy, slotTy_any r]
+
+theorem store_any (a : Taken) : (store .any a).isSome := by
+  cases a with
+  | none => simp [store, nilable]
+  | some x => obtain ⟨ty, v⟩ := x; simp [store, assignable]
+
+theorem extractTy_slotTy : ∀ (p : Path) (t x : FTy) (i : Bool),
+    extractTy true t p = some (x, i) → slotTy t p = some x := by
+  intro p
+  induction p with
+  | nil => intro t x i h; simp [extractTy] at h; simp [slotTy, h.1]
+  | cons s r ih =>
+    intro t x i h
+    cases t with
+    | map e => simp only [extractTy] at h; simp only [slotTy]; exact ih e x i h
+    | any =>
+      simp only [extractTy, structOf] at h
+      have hx : x = .any := by
+        by_cases hr : r.isEmpty = true
+        · simp [hr] at h; exact h.1.symm
+        · simp [hr] at h; exact h.1.symm
+      subst hx
+      exact slotTy_any _
+    | struct n fs =>
+      simp only [extractTy, structOf] at h
+      simp only [slotTy, structOf]
+      cases hf : fieldTy fs s with
+      | none => simp [hf] at h
+      | some ft => simp only [hf] at h ⊢; exact ih ft x i h
+    | ptr t' =>
+      cases t' with
+      | struct n fs =>
+        simp only [extractTy, structOf] at h
+        simp only [slotTy, structOf]
+        cases hf : fieldTy fs s with
+        | none => simp [hf] at h
+        | some ft => simp only [hf] at h ⊢; exact ih ft x i h
+      | _ =>
+        simp only [extractTy, structOf] at h
+        by_cases hr : r.isEmpty = true <;> simp [hr] at h
+    | str =>
+      simp only [extractTy, structOf] at h
+      by_cases hr : r.isEmpty = true <;> simp [hr] at h
+    | int =>
+      simp only [extractTy, structOf] at h
+      by_cases hr : r.isEmpty = true <;> simp [hr] at h
+
+theorem takeStep_ok (f : TakeFacts) (ty : FTy) (val : FVal) (via : Bool) (s : Seg) (st : FTy) (v : FVal)
+    (h : takeStep f (some (ty, val)) via s = .ok (st, v)) :
+    (∃ kvs, ty = .map st ∧ val = .map kvs ∧ kvs.lookup s = some v) ∨
+    (∃ n fs kvs, ty = .struct n fs ∧ val = .obj kvs ∧ fieldGet fs kvs s = some (st, v)) ∨
+    (∃ n fs kvs, ty = .ptr (.struct n fs) ∧ val = .ptr (.obj kvs) ∧ fieldGet fs kvs s = some (st, v)) := by
+  unfold takeStep at h
+  split at h
+  · rename_i heq; simp at heq
+  · rename_i e kvs heq
+    simp only [Option.some.injEq, Prod.mk.injEq] at heq
+    obtain ⟨rfl, rfl⟩ := heq
+    split at h
+    · rename_i x hx; simp only [Except.ok.injEq, Prod.mk.injEq] at h; obtain ⟨rfl, rfl⟩ := h; exact Or.inl ⟨kvs, rfl, rfl, hx⟩
+    · simp at h
+  · simp at h
+  · rename_i n fs kvs heq
+    simp only [Option.some.injEq, Prod.mk.injEq] at heq
+    obtain ⟨rfl, rfl⟩ := heq
+    split at h
+    · rename_i x hx; simp only [Except.ok.injEq] at h; subst h; exact Or.inr (Or.inl ⟨n, fs, kvs, rfl, rfl, hx⟩)
+    · split at h <;> simp at h
+  · rename_i n fs kvs heq
+    simp only [Option.some.injEq, Prod.mk.injEq] at heq
+    obtain ⟨rfl, rfl⟩ := heq
+    split at h
+    · rename_i x hx; simp only [Except.ok.injEq] at h; subst h; exact Or.inr (Or.inr ⟨n, fs, kvs, rfl, rfl, hx⟩)
+    · split at h <;> simp at h
+  · split at h <;> simp at h
+  · split at h
+    · simp at h
+    · split at h <;> simp at h
+
+theorem takeFrom_cons_ok {f : TakeFacts} {a b : Taken} {via : Bool} {s : Seg} {r : Path}
+    (h : takeFrom f a via (s :: r) = .ok b) :
+    ∃ st v, takeStep f a via s = .ok (st, v) ∧ takeFrom f (unstore st v) (st == .any) r = .ok b := by
+  simp only [takeFrom] at h
+  cases hs : takeStep f a via s with
+  | error e => simp [hs] at h
+  | ok sv => obtain ⟨st, v⟩ := sv; simp only [hs] at h; exact ⟨st, v, rfl, h⟩
+
+/-- on a path that never crosses an interface the taken value carries the static type -/
+theorem takeFrom_tag (f : TakeFacts) : ∀ (p : Path) (t pf : FTy) (v : FVal) (via : Bool) (a : Taken),
+    extractTy true t p = some (pf, false) → pf ≠ .any →
+    takeFrom f (unstore t v) via p = .ok a → ∃ w, a = some (pf, w) := by
+  intro p
+  induction p with
+  | nil =>
+    intro t pf v via a h hne ht
+    simp only [extractTy, Option.some.injEq, Prod.mk.injEq, and_true] at h
+    subst h
+    simp only [takeFrom, unstore, hne, if_false, Except.ok.injEq] at ht
+    exact ⟨v, ht.symm⟩
+  | cons s r ih =>
+    intro t pf v via a h hne ht
+    obtain ⟨st, x, hstep, hrest⟩ := takeFrom_cons_ok ht
+    have hany : ∀ (tt : FTy), tt = .any → extractTy true tt (s :: r) = some (pf, false) → False := by
+      intro tt htt hh
+      subst htt
+      simp only [extractTy, structOf] at hh
+      by_cases hr : r.isEmpty = true
+      · simp [hr] at hh; exact hne hh.symm
+      · simp [hr] at hh
+    by_cases hta : t = .any
+    · exact absurd h (fun hh => hany t hta hh)
+    · simp only [unstore, hta, if_false] at hstep
+      rcases takeStep_ok f t v via s st x hstep with ⟨kvs, rfl, rfl, hl⟩ | ⟨n, fs, kvs, rfl, rfl, hg⟩ | ⟨n, fs, kvs, rfl, rfl, hg⟩
+      · simp only [extractTy] at h
+        exact ih st pf x _ a h hne hrest
+      · simp only [extractTy, structOf] at h
+        have hty := fieldGet_ty fs kvs s
+        simp only [hg, Option.map_some] at hty
+        simp only [← hty] at h
+        exact ih st pf x _ a h hne hrest
+      · simp only [extractTy, structOf] at h
+        have hty := fieldGet_ty fs kvs s
+        simp only [hg, Option.map_some] at hty
+        simp only [← hty] at h
+        exact ih st pf x _ a h hne hrest
+
+theorem assign_of_validated (f : TakeFacts) (pt st : FTy) (v : FVal) (m : Mapping) (chk : Option (FTy × Bool))
+    (a : Taken) (hv : validateOne Expected.C15.validate pt st m = some chk)
+    (ht : take f pt v m.src = .ok a) (hc : runtimeCheck chk a = true) (d : FVal) :
+    (assign st d m.dst a).isSome := by
+  simp only [validateOne, Expected.C15.validate] at hv
+  cases hp : extractTy true pt m.src with
+  | none => simp [hp] at hv
+  | some pfi =>
+    obtain ⟨pf, pI⟩ := pfi
+    cases hs : extractTy true st m.dst with
+    | none => simp [hp, hs] at hv
+    | some sfi =>
+      obtain ⟨sf, sI⟩ := sfi
+      simp only [hp, hs] at hv
+      rw [assign_isSome, extractTy_slotTy _ _ _ _ hs]
+      simp only []
+      by_cases hsI : sI = true
+      · simp only [hsI, if_true] at hv
+        by_cases hsf : sf = .any
+        · subst hsf; exact store_any a
+        · simp [hsf] at hv
+      · simp only [hsI, if_false, Bool.false_eq_true] at hv
+        by_cases hpI : pI = true
+        · simp only [hpI, if_true, Option.some.injEq] at hv
+          subst hv
+          cases a with
+          | none => simp [runtimeCheck] at hc
+          | some x => obtain ⟨ty, w⟩ := x; simp only [runtimeCheck] at hc; simp [store, hc]
+        · simp only [hpI, if_false, Bool.false_eq_true] at hv
+          have hpI' : pI = false := by simpa using hpI
+          subst hpI'
+          simp only [checkAssignable] at hv
+          by_cases h1 : sf = pf
+          · subst h1
+            by_cases h2 : sf = .any
+            · subst h2; exact store_any a
+            · obtain ⟨w, hw⟩ := takeFrom_tag f m.src pt sf v false a hp h2 ht
+              subst hw
+              simp [store, assignable]
+          · by_cases h2 : sf = .any
+            · subst h2; exact store_any a
+            · by_cases h3 : pf = .any
+              · simp only [h1, h2, h3, if_false, if_true, Option.some.injEq] at hv
+                subst hv
+                cases a with
+                | none => simp only [runtimeCheck, Bool.not_false, Bool.true_and] at hc; simp [store, hc]
+                | some x => obtain ⟨ty, w⟩ := x; simp only [runtimeCheck] at hc; simp [store, hc]
+              · simp [h1, h2, h3] at hv
+
+theorem fieldMapE_ok (f : TakeFacts) (allow : Bool) (pt : FTy) (v : FVal) : ∀ (ms : List Mapping)
+    (l : List (Mapping × Taken)), fieldMapE f allow pt v ms = .ok l →
+    ∀ x ∈ l, x.1 ∈ ms ∧ take f pt v x.1.src = .ok x.2 := by
+  intro ms
+  induction ms with
+  | nil => intro l h; simp [fieldMapE] at h; subst h; simp
+  | cons m rest ih =>
+    intro l h x hx
+    simp only [fieldMapE] at h
+    cases ht : take f pt v m.src with
+    | error e =>
+      cases e with
+      | keyMissing =>
+        simp only [ht] at h
+        cases allow with
+        | true =>
+          simp only [if_true] at h
+          have := ih l h x hx
+          exact ⟨List.mem_cons_of_mem _ this.1, this.2⟩
+        | false => simp at h
+      | bad => simp [ht] at h
+      | panic => simp [ht] at h
+    | ok a =>
+      simp only [ht] at h
+      cases hr : fieldMapE f allow pt v rest with
+      | error e => simp [hr] at h
+      | ok l' =>
+        simp only [hr, Except.ok.injEq] at h
+        subst h
+        rcases List.mem_cons.mp hx with rfl | hx
+        · exact ⟨by simp, ht⟩
+        · have := ih l' hr x hx
+          exact ⟨List.mem_cons_of_mem _ this.1, this.2⟩
+
+theorem fieldMapE_no_panic (allow : Bool) (pt : FTy) (v : FVal) : ∀ (ms : List Mapping),
+    fieldMapE Expected.C15.take allow pt v ms ≠ .error .panic := by
+  intro ms
+  induction ms with
+  | nil => simp [fieldMapE]
+  | cons m rest ih =>
+    simp only [fieldMapE]
+    have hnp := take_no_panic pt v m.src
+    cases ht : take Expected.C15.take pt v m.src with
+    | error e =>
+      cases e with
+      | keyMissing =>
+        cases allow with
+        | true => simpa using ih
+        | false => simp
+      | bad => simp
+      | panic => exact absurd ht hnp
+    | ok a =>
+      simp only []
+      cases hr : fieldMapE Expected.C15.take allow pt v rest with
+      | error e => simp only [ne_eq, Except.error.injEq]; intro he; subst he; exact ih hr
+      | ok l' => simp
+
+/-- every entry the edge handlers deliver can be assigned, whatever the destination holds -/
+theorem edgesMap_ok (allow : Bool) (st : FTy) : ∀ (es : List Edge) (l : List (Path × Taken)),
+    (∀ e ∈ es, ∀ m ∈ e.ms, (validateOne Expected.C15.validate e.pt st m).isSome) →
+    edgesMap Expected.C15.take Expected.C15.validate allow st es = .ok l →
+    ∀ x ∈ l, ∀ d, (assign st d x.1 x.2).isSome := by
+  intro es
+  induction es with
+  | nil => intro l _ h; simp [edgesMap] at h; subst h; simp
+  | cons e rest ih =>
+    intro l hval h x hx d
+    simp only [edgesMap] at h
+    cases hf : fieldMapE Expected.C15.take allow e.pt e.v e.ms with
+    | error err => simp [hf] at h
+    | ok le =>
+      simp only [hf] at h
+      by_cases hc : checkE Expected.C15.validate e.pt st e.ms le = true
+      · simp only [hc, if_true] at h
+        cases hr : edgesMap Expected.C15.take Expected.C15.validate allow st rest with
+        | error err => simp [hr] at h
+        | ok l' =>
+          simp only [hr, Except.ok.injEq] at h
+          subst h
+          rcases List.mem_append.mp hx with hx | hx
+          · obtain ⟨y, hy, rfl⟩ := List.mem_map.mp hx
+            obtain ⟨m, a⟩ := y
+            have hm := fieldMapE_ok _ _ _ _ _ _ hf (m, a) hy
+            have hvm := hval e (by simp) m hm.1
+            cases hv : validateOne Expected.C15.validate e.pt st m with
+            | none => simp [hv] at hvm
+            | some chk =>
+              have hrc : runtimeCheck chk a = true := by
+                have := List.all_eq_true.mp hc (m, a) hy
+                simp only [checkerOf, hv, Option.getD_some] at this
+                cases chk with
+                | none => simp [runtimeCheck]
+                | some c => obtain ⟨ty, strict⟩ := c; simpa [Expected.C15.validate] using this
+              exact assign_of_validated _ e.pt st e.v m chk a hv hm.2 hrc d
+          · exact ih l' (fun e' he' => hval e' (List.mem_cons_of_mem _ he')) hr x hx d
+      · simp [hc] at h
+
+theorem edgesMap_no_panic (allow : Bool) (st : FTy) : ∀ (es : List Edge),
+    edgesMap Expected.C15.take Expected.C15.validate allow st es ≠ .error .panic := by
+  intro es
+  induction es with
+  | nil => simp [edgesMap]
+  | cons e rest ih =>
+    simp only [edgesMap]
+    have hnp := fieldMapE_no_panic allow e.pt e.v e.ms
+    cases hf : fieldMapE Expected.C15.take allow e.pt e.v e.ms with
+    | error err => simp only [ne_eq, Except.error.injEq]; intro he; subst he; exact hnp hf
+    | ok le =>
+      simp only []
+      by_cases hc : checkE Expected.C15.validate e.pt st e.ms le = true
+      · simp only [hc, if_true]
+        cases hr : edgesMap Expected.C15.take Expected.C15.validate allow st rest with
+        | error err => simp only [ne_eq, Except.error.injEq]; intro he; subst he; exact ih hr
+        | ok l' => simp
+      · simp [hc]
 
 end EinoV.C15
